@@ -169,6 +169,9 @@ DoIPow(s) == MulKeysOK(o[s], ItemsOf(o[s].ts)) /\ Step(s, IPowR(o[s], ItemsOf(o[
 DoClear(s) == TRUE /\ Step(s, ClearR(o[s]), <<"clear", s>>)
 DoRefresh(s) == TRUE /\ Step(s, RefreshR(o[s]), <<"refresh", s>>)
 DoCopy(s, d) == s # d /\ Step(d, CopyR(o[s]), <<"copy", s, d>>)
+\* construction from a plain dict (raw keys: repeated labels, zero values, keys that squash together): class(dict)
+NewR(kind, items) == FoldAugAdd(Fresh(kind), items, 1, 1)
+DoNew(s, lit) == ItemsOK(o[s].kind, lit) /\ Step(s, NewR(o[s].kind, lit), <<"new", s, lit>>)
 DoAddCons(s, x, n) == IsConstr(o[s].kind) /\ Step(s, AddConsR(o[s], x, n), <<"addcons", s, x, n>>)
 
 \* binary operators: result into slot d, operands unchanged (a dict operand on the left uses the reflected form)
@@ -192,7 +195,7 @@ DoInfo(s, d) == s # d /\ Step(d, CopyR(o[s]), <<"info", s, d>>)
 \* to_enumerated() / to_qubo(): observation only, the object is unchanged
 DoToEnum(s, red) == IsLabelled(o[s].kind) /\ UNCHANGED o /\ op' = <<"toenum", s, red>>
 
-AllOps == {"setitem", "augadd", "iadd", "isub", "update", "imul", "scalar", "ipow", "clear", "refresh", "copy", "addcons", "toenum"}
+AllOps == {"setitem", "augadd", "iadd", "isub", "update", "imul", "scalar", "ipow", "clear", "refresh", "copy", "addcons", "toenum", "new"}
 ArithOps == {"setitem", "augadd", "iadd", "isub", "imul", "scalar", "ipow", "bin", "binscalar", "neg", "pow", "div", "value", "mulraise", "refresh"}
 AliasOps == {"setitem", "augadd", "iadd", "imul", "scalar", "update", "clear", "refresh", "copy", "ctor", "info", "poke", "addcons", "bin"}
 BinNames == {"add", "sub", "mul"}
@@ -209,6 +212,7 @@ Next == \E s \in Slots :
           \/ On("clear") /\ DoClear(s)
           \/ On("refresh") /\ DoRefresh(s)
           \/ On("copy") /\ \E d \in Slots : DoCopy(s, d)
+          \/ On("new") /\ \E lit \in LitDicts : DoNew(s, lit)
           \/ On("addcons") /\ \E x \in Labels, n \in 0..5 : DoAddCons(s, x, n)
           \/ On("toenum") /\ \E red \in BOOLEAN : DoToEnum(s, red)
           \/ On("bin") /\ \E name \in BinNames, d \in Slots :
